@@ -19,10 +19,10 @@ RULE = ('seeded worlds (2-8 segments, 1-4 channels, some with identical shapes s
         'de-duplicated, _array_equal chunk knob in {1,2,3,100}); per world a seeded schedule of <=60 actions over '
         '<=8 live generators (TdmsFile.data_chunks, channel.data_chunks, iter(channel)) and direct index / slice '
         '/ read_data ops on one lazily opened handle; in 20% of worlds one transient EIO is injected at a seeded read event '
-        'of that handle (the read that meets it may fail, every later read must still be right). distinct = distinct abstract traces [(action, generator '
+        'of that handle (the read that meets it may fail, every later read must still be right); in 30% of worlds a second file - a sibling with the same objects, sizes and lengths but another distribution over the segments, or an unrelated file with the same paths - is open at the same time and read in between. distinct = distinct abstract traces [(action, generator '
         'kind, op kind)...] x world shape; non-trivial = at least one generator was advanced with another '
         'action interleaved between two of its yields')
-EXPECTED_PROBES = ['eio:op-raised', 'eio:generator-hit', 'scaled-channel', 'read-between-file-chunks', 'two-generators-same-channel', 'abandoned-then-new',
+EXPECTED_PROBES = ['second-file-op', 'eio:op-raised', 'eio:generator-hit', 'scaled-channel', 'read-between-file-chunks', 'two-generators-same-channel', 'abandoned-then-new',
                    'index-cache-hit-after-other-read', 'generator-drained-at-end']
 MAX_LIVE = 8
 
@@ -33,6 +33,7 @@ def opts(tier):
     o.many_segments_p = 0.01
     o.max_channels = 4
     o.props = False
+    o.huge_p = 0.004
     o.max_chunks = 4
     o.equal_shapes_p = 0.3
     o.typeless_p = 0.05
@@ -50,14 +51,31 @@ def opts(tier):
     return gen.deepen(o, tier)
 
 
-def gen_actions(rng, w, nmax=60):
+def gen_op(rng, w, path, kind='op'):
+    ln = w.chans[path].count
+    k = rng.random()
+    if k < 0.5:
+        return {'a': kind, 'op': 'index', 'ch': path, 'i': rng.randint(-ln - 1, ln)}
+    if k < 0.75:
+        off = rng.randint(0, ln + 1)
+        return {'a': kind, 'op': 'read_data', 'ch': path, 'offset': off, 'length': rng.choice([None, 0, 1, rng.randint(0, ln + 1)])}
+    return {'a': kind, 'op': 'slice', 'ch': path, 'start': rng.choice([None, rng.randint(-ln - 1, ln + 1)]),
+            'stop': rng.choice([None, rng.randint(-ln - 1, ln + 1)]), 'step': rng.choice([None, 1, 2, -1])}
+
+
+def gen_actions(rng, w, nmax=60, w2=None):
     chans = [p for p, c in w.chans.items()]
+    chans2 = [p for p, c in w2.chans.items() if c.type is not None] if w2 is not None else []
     acts = []
     live = []
     next_id = 0
     n = rng.randint(5, nmax)
     for _ in range(n):
         r = rng.random()
+        if chans2 and rng.random() < 0.3:
+            # the same kinds of reads on the other open file
+            acts.append(gen_op(rng, w2, rng.choice(chans2), kind='bop'))
+            continue
         if live and r < 0.45:
             acts.append({'a': 'next', 'id': rng.choice(live)})
         elif r < 0.8 and chans:
@@ -80,6 +98,8 @@ def gen_actions(rng, w, nmax=60):
                 if not chans:
                     continue
                 a['ch'] = rng.choice(chans)
+                if kind == 'iter' and w.chans[a['ch']].count > 5000:
+                    a['kind'] = 'chan'        # value-by-value iteration over a very long channel is only long, not different
             acts.append(a)
             live.append(next_id)
             next_id += 1
@@ -98,11 +118,42 @@ def generate(rng, tier):
         spec, w, _ = gen.gen_world(rng, o)
     else:
         w = build(spec)
+    by = None
+    w2 = None
+    if rng.random() < 0.3 and not any(sg.get('layout') == 'daqmx' for sg in spec['segments']):
+        # a second file open at the same time: a sibling of the first one (same objects, sizes and lengths, data
+        # distributed differently over the segments) or an unrelated world that uses the same object paths
+        sib = gen.sibling(rng, spec) if rng.random() < 0.7 else None
+        if sib is not None:
+            by = sib[0]
+        else:
+            o2 = opts(tier)
+            o2.scaling = None
+            o2.huge_p = 0.0
+            o2.fixed_names = spec['names']
+            try:
+                by = gen.gen_world(rng, o2)[0]
+            except RuntimeError:
+                by = None
+        if by is not None:
+            by = strip_scaling(by)
+            w2 = build(by)
     return {'spec': spec, 'raw_ts': rng.random() < 0.4, 'backend': rng.choice(['simstream', 'simstream', 'simpath', 'bytesio', 'realpath', 'realfile']),
-            'dedup_chunk': rng.choice([1, 2, 3, 100]), 'actions': gen_actions(rng, w),
+            'dedup_chunk': rng.choice([1, 2, 3, 100]), 'actions': gen_actions(rng, w, w2=w2), 'bystander': by,
+            'bystander_first': rng.random() < 0.5,
             'short_seed': rng.getrandbits(32) if rng.random() < 0.2 else None, 'debug_log': rng.random() < 0.05,
             # a transient I/O error on the open handle: the read that meets it may fail, later reads must not be affected
             'eio_at': rng.randint(5, 200) if rng.random() < 0.2 else None}
+
+
+def strip_scaling(spec):
+    """The bystander file is judged against the raw model: its scaling properties are dropped."""
+    import copy
+    s2 = copy.deepcopy(spec)
+    for sg in s2['segments']:
+        for L in sg.get('listed', []):
+            L['props'] = [pr for pr in L.get('props', []) if not str(pr[0]).startswith('NI_')]
+    return s2
 
 
 def make_gen(tf, w, a):
@@ -155,13 +206,29 @@ def execute(case):
     with store(short_seed=case['short_seed'], record=False) as st, lib.knobs(dedup_chunk=case['dedup_chunk'], debug_log=case.get('debug_log', False)):
         st.put('w.tdms', w.data)
         eio = case.get('eio_at')
+        tf2 = w2 = None
+        fulls2 = {}
+
+        def open_bystander():
+            wb = build(case['bystander'])
+            st.put('b.tdms', wb.data)
+            return wb, lib.TdmsFile.open(st.source('simstream', 'b.tdms'), raw_timestamps=raw_ts)
         try:
+            if case.get('bystander') is not None and case.get('bystander_first'):
+                w2, tf2 = open_bystander()
             src = st.source(case['backend'] if eio is None else 'simstream', 'w.tdms')
             tf = lib.TdmsFile.open(src, raw_timestamps=raw_ts)
+            if case.get('bystander') is not None and tf2 is None:
+                w2, tf2 = open_bystander()
         except Exception as exc:
             res.skipped_ops += len(acts)
             res.ev('open-raises', type(exc).__name__)
+            if tf2 is not None:
+                tf2.close()
             return res
+        if tf2 is not None:
+            res.probe('second-file-open')
+            fulls2 = {p: _lazy.model_full(c, raw_ts) for p, c in w2.chans.items()}
         if eio is not None:
             src.fail_local = {src.local_reads + eio}
         res.backend = case['backend'] if eio is None else 'simstream'
@@ -228,6 +295,20 @@ def execute(case):
                     last_advanced = a['id']
                     for k in other_read_since:
                         other_read_since[k] = True
+                elif a['a'] == 'bop':
+                    if tf2 is None or a['ch'] not in fulls2:
+                        continue
+                    op = {k: v for k, v in a.items() if k != 'a'}
+                    v, g_, exc = _lazy.check_op(tf2, w2, op, fulls2[a['ch']], 'C05.other-file-op', 'lazy', keeper=keeper)
+                    res.compared += 1
+                    res.probe('second-file-op')
+                    if v is not None:
+                        v.sig['step'] = step
+                        res.violations.append(v)
+                    res.ev(step, 'bop', exc or (digest(g_) if g_ is not None else None))
+                    last_advanced = ('bop', step)
+                    for k_ in list(other_read_since):
+                        other_read_since[k_] = True
                 else:
                     op = {k: v for k, v in a.items() if k != 'a'}
                     full = fulls[op['ch']]
@@ -303,6 +384,8 @@ def execute(case):
                                         'now %s' % (label, _lazy._short(before), _lazy._short(after))))
         finally:
             tf.close()
+            if tf2 is not None:
+                tf2.close()
         for k, v_ in st.fs.faults_fired.items():
             res.fault(k, v_)
     return res
@@ -356,6 +439,16 @@ def shrink_candidates(case):
         c = dict(case)
         c['eio_at'] = None
         yield c
+    if case.get('bystander') is not None:
+        c = dict(case)
+        c['bystander'] = None
+        c['actions'] = [a for a in case['actions'] if a['a'] != 'bop']
+        yield c
+        for sp in spec_candidates(case['bystander']):
+            c = dict(case)
+            c['bystander'] = sp
+            c['actions'] = [a for a in case['actions'] if a['a'] != 'bop' or a['ch'] in sp['names']]
+            yield c
     for k, v in (('short_seed', None), ('backend', 'simstream'), ('dedup_chunk', 100), ('raw_ts', False)):
         if case[k] != v:
             c = dict(case)
